@@ -205,7 +205,7 @@ def finish(pid, prop, tier, seed, t0, b, hyg, ps, cases, impl, failures, disagre
     for c, f in failures:
         hit = None
         for kf in findings:
-            if infra.finding_matches(kf, pid, c):
+            if infra.finding_matches(kf, pid, c, f):
                 hit = kf
                 break
         if hit:
